@@ -3,7 +3,8 @@
    reader of every layer) instantiated with the Flocq scalar operations; it is tied to the code by
    the byte-exact correspondence check (props/c06.py). *)
 From Coq Require Import ZArith List Bool.
-From Covfie Require Import Stack BinIO BinIOProofs FloatOps.
+From Covfie Require Import Stack BinIO BinIOProofs FloatOps Refine_Tags.
+From Covfie.gen Require Import Gen_Tags.
 Import ListNotations.
 Local Open Scope Z_scope.
 
@@ -24,6 +25,15 @@ Proof. exact (dump_load_dump flocq_ops flocq_conv_id). Qed.
 (* every layer of the grammar is serialisable: a well-formed field always has a dump *)
 Theorem C06_dump_total : forall s f, wf_fld s f = true -> exists bs, dump s f = Some bs.
 Proof. exact dump_total. Qed.
+
+(* tie to the source: the magic numbers, every backend's tag, the footer rule of writer and reader, and
+   WHICH backends write / check a tag, as read from the headers' AST on this run, are the model's *)
+Theorem C06_format_constants_are_the_sources :
+  forallb (fun p => match tag_named (fst p) with Some v => Z.eqb v (snd p) | None => false end) model_tags = true /\
+  (io_magic_header = MAGIC_HEADER /\ io_magic_footer = MAGIC_FOOTER) /\
+  (io_footer_writer = footer_rule /\ io_footer_reader = footer_rule) /\
+  (io_writes_tag = model_tagged /\ io_checks_tag = model_tagged).
+Proof. exact (conj tags_match (conj magic_match (conj footer_rule_match tagged_match))). Qed.
 
 (* non-vacuity: a five-layer stack with every kind of configuration *)
 Example C06_example :
